@@ -99,6 +99,7 @@ func VfC17_Dispatch() {
 		p.play()
 		nd.PanicLabel("handleChild")
 		r.handleChild(c) // returns when the child has disconnected
+		nd.Quiesce()     // whatever the dispatcher left running finishes
 	}
 	// instance calls + kill, in request order
 	got := append([]int(nil), inst.log...)
